@@ -374,7 +374,20 @@ static void opQuery(Inst& in) {
 
 static void opChange(Inst& in, uint8_t dest, bool withPayload, bool immediate) {
 	World& w = *W;
-	const uint64_t tag = withPayload ? ++w.tagCounter : 0;
+	// now and then the payload argument is a reference into the machine itself: the payload of its own previous
+	// transition is forwarded (fsm.changeWith(next, *fsm.previousTransition().payload()))
+#if HAS_PAYLOAD
+	const cfg::Payload* alias = nullptr;
+#if HAS_HISTORY
+	if (withPayload && in.policy == POL_CHOOSER && w.ch.mode != Chooser::ENUM && in.obj->previousTransition().payload() && w.ch.chance(1, 4)) {
+		alias = in.obj->previousTransition().payload();
+		w.stats.add("payload_arguments_aliasing_own_history");
+	}
+#endif
+	const uint64_t tag = withPayload ? (alias ? cfg::tagOf(*alias) : ++w.tagCounter) : 0;
+#else
+	const uint64_t tag = 0;
+#endif
 	const uint8_t op = immediate ? (withPayload ? OP_IMMEDIATE_WITH : OP_IMMEDIATE) : (withPayload ? OP_CHANGE_WITH : OP_CHANGE);
 	Obs before;
 	if (!immediate) before = observe(in);
@@ -386,7 +399,8 @@ static void opChange(Inst& in, uint8_t dest, bool withPayload, bool immediate) {
 	else { w.ownRequest = true; w.ownLogCount = 0; }
 #if HAS_PAYLOAD
 	if (withPayload) {
-		const cfg::Payload pl = cfg::makePayload(tag);
+		const cfg::Payload plOwn = cfg::makePayload(tag);
+		const cfg::Payload& pl = alias ? *alias : plOwn;
 		if (byType) { if (immediate) FOR_STATE(dest, T, LIB(in.obj->template immediateChangeWith<T>(pl))); else FOR_STATE(dest, T, LIB(in.obj->template changeWith<T>(pl))); }
 		else { if (immediate) LIB(in.obj->immediateChangeWith(static_cast<StateID>(dest), pl)); else LIB(in.obj->changeWith(static_cast<StateID>(dest), pl)); }
 	} else
@@ -846,6 +860,8 @@ struct Case {
 	// a copy of the authority taken from inside one of its callbacks (fsm_states.hpp: hub): whatever the machine was in
 	// the middle of, the copy is a machine, and its cycles deliver their phases (C05; nothing else is known about it)
 	void snapshotCheck() {
+		static const char* const ONLY_C05[] = {"C05", nullptr};
+		static const char* const ONLY_LOAD[] = {"C12", "C14", nullptr};
 		Inst& sn = w.inst[4];
 		const void* ctxExp = A().ctxExpected;
 		sn = Inst{};
@@ -857,17 +873,46 @@ struct Case {
 		const ffsm2::StateID act = sn.obj->activeStateId();
 		sn.cur = act == ffsm2::INVALID_STATE_ID ? -1 : static_cast<int>(act);
 		sn.rootIn = sn.cur >= 0;
-		w.muteExceptC05 = true;
+		w.snapPending = false;
 		if (sn.cur >= 0) {
+			w.muteAllow = ONLY_C05;
 			opUpdate(sn);
 			opReact(sn, 6 + (w.caseNo & 1));
 			opQuery(sn);
 			opUpdate(sn);
 			w.stats.add("snapshot_copies_cycled");
+			opDestroy(4);
+			w.muteAllow = nullptr;
+			return;
 		}
+		// an inactive snapshot (taken while the machine was being activated)
+		w.stats.add("snapshot_copies_inactive");
+#if CFG_MANUAL
+#if HAS_SERIAL
+		if (A().alive && A().cur >= 0) {
+			// C12: load() into any instance, whatever its own state - this one has never been entered
+			GuardedBuffer g = opSave(A());
+			const int activity = A().cur;
+			w.muteAllow = ONLY_LOAD;
+			sn.policy = POL_HOSTILE;
+			w.apiBegin(sn, OP_LOAD, static_cast<uint8_t>(activity));
+			LIB(sn.obj->load(g.buf));
+			w.apiEnd(sn);
+			const int got = sn.obj->activeStateId() == ffsm2::INVALID_STATE_ID ? -1 : sn.obj->activeStateId();
+			if (got != activity) w.V("C12", "loader-activity-differs-from-saver", fmt("saver activity %d, snapshot after load() %d; %s", activity, got, w.tail().c_str()));
+			sn.policy = POL_PASSIVE;
+			w.stats.add("loads_into_inactive_snapshots");
+			if (sn.cur >= 0) opExit(sn);
+		}
+#endif
+		w.muteAllow = ONLY_C05;
 		opDestroy(4);
-		w.muteExceptC05 = false;
-		w.snapPending = false;
+		w.muteAllow = nullptr;
+#else
+		// an automatically activated machine that is inactive only exists as a copy taken during the original's
+		// constructor; its destructor would run the final exit on it (asserted against) - the storage is abandoned
+		sn.alive = false;
+#endif
 	}
 
 	// the machine is moved to another address and back (move construction; the object moved from is destroyed each
@@ -982,7 +1027,7 @@ static Profile makeProfile(World& w) {
 static uint64_t caseDigest(const World& w) { return w.caseHash; }
 
 static uint32_t nontrivialMask(const std::string& prop) {
-	if (prop == "C01") return F_TRANSITION;
+	if (prop == "C01" || prop == "C14") return F_TRANSITION;
 	if (prop == "C02") return F_ROUND;
 	if (prop == "C03") return F_VETO | F_REDIRECT;
 	if (prop == "C04") return F_REDIRECT | F_LIMIT;
@@ -1207,12 +1252,27 @@ int main(int argc, char** argv) {
 	if (!cfg::BARE) world.snapshotHook = [](Inst& in, ffsm2::Method m) {
 		World& w = *W;
 		prefill(4, w.caseNo + 3000);
+		w.inSnapshotCopy = true;
 		LIB(new (g_store[4]) Instance(*in.obj));
+		w.inSnapshotCopy = false;
+		Instance* const sn = reinterpret_cast<Instance*>(g_store[4]);
 #if HAS_LOG
-		LIB(reinterpret_cast<Instance*>(g_store[4])->attachLogger(nullptr));   // the authority's logger stays the authority's
+		LIB(sn->attachLogger(nullptr));   // the authority's logger stays the authority's
+#endif
+		// C17: equal to the original at the moment of copying - whatever that moment is
+		if (sn->activeStateId() != in.obj->activeStateId())
+			w.V("C17", "copy-not-observationally-equal|activity|taken-inside-callback", fmt("copy taken inside %s (during %s): the original reports active state %u, the copy %u; %s", mname(m), opName(in.st.op), in.obj->activeStateId(), sn->activeStateId(), w.tail().c_str()));
+#if HAS_HISTORY
+		if (!toReq(sn->previousTransition()).same(toReq(in.obj->previousTransition())))
+			w.V("C17", "copy-not-observationally-equal|previousTransition|taken-inside-callback", fmt("copy taken inside %s: previousTransition() differs from the original's", mname(m)));
+#endif
+#if HAS_PLANS
+		if (!samePlan(readPlan(static_cast<const Instance*>(sn)->plan()), readPlan(static_cast<const Instance*>(in.obj)->plan())))
+			w.V("C17", "copy-not-observationally-equal|plan|taken-inside-callback", fmt("copy taken inside %s: the plan differs from the original's", mname(m)));
 #endif
 		w.snapPending = true;
 		w.stats.add2("snapshots_taken_inside", mname(m));
+		if (in.st.op == OP_CTOR) w.stats.add("snapshots_taken_during_construction");
 	};
 	world.readPlanHook = [](Inst& in) {
 #if HAS_PLANS
